@@ -30,14 +30,14 @@ func extNamed(p *Prog, pkgPath, name string) *types.Named {
 }
 
 type c11Outcome struct {
-	errNil     bool
-	readerNil  bool
-	installed  string   // provenance of the reader Next() will parse
-	signer     string   // provenance of the recorded signer ("" = nil)
-	verified   []string // "keyring|signed|signature" per verification call
-	verifyOK   bool
+	errNil       bool
+	readerNil    bool
+	installed    string   // provenance of the reader Next() will parse
+	signer       string   // provenance of the recorded signer ("" = nil)
+	verified     []string // "keyring|signed|signature" per verification call
+	verifyOK     bool
 	decodeCalled bool
-	path       []string
+	path         []string
 }
 
 func checkC11(p *Prog, rp *Report) {
@@ -87,12 +87,12 @@ func checkC11(p *Prog, rp *Report) {
 		return fmt.Sprintf("%T", v)
 	}
 	type scenario struct {
-		name      string
-		signed    bool
-		keyring   string // nil | keys | empty | nil-list
-		readOK    bool
-		blockOK   bool
-		verifyOK  bool
+		name     string
+		signed   bool
+		keyring  string // nil | keys | empty | nil-list
+		readOK   bool
+		blockOK  bool
+		verifyOK bool
 	}
 	runScenario := func(sc scenario, entry *ssa.Function) (*c11Outcome, string) {
 		m := NewMachine(p, nil)
